@@ -9,7 +9,7 @@ forms, additivity (numeric).
 import re
 
 from verif import core, cow
-from verif.tree import walk, walk_fn, show, stmt_list, meth, strip
+from verif.tree import walk, walk_fn, show, stmt_list, meth, strip, decast, children
 
 LEVEL = "other"
 EG = "opm/input/eclipse/EclipseState/Grid/EclipseGrid.cpp"
@@ -415,5 +415,173 @@ def run(chk):
         chk.instance(r_gu, "once:" + g, sample=dict(array=g, applications=applied.get(g, [])))
         if n_ != 1:
             chk.violation(r_gu, "once:" + g, "EclipseGrid::%s is passed to apply_GRIDUNIT %d times (lines %s); each stored length array must be rescaled exactly once" % (g, n_, applied.get(g, [])), fx.fn1("Opm::EclipseGrid::save")["file"] if False else "/repo/" + EG, (applied.get(g) or [None])[0])
+
+    # ---- C13.idxkind: cell numbers stored in the EGRID NNC arrays are global, and the reader decodes them as global
+    r_ik = chk.rule("C13.idxkind", "EGRID cell-number kinds: EclipseGrid::save stores NNC1/NNC2 as (global cell index + 1); in EclIO::EGrid every element of the arrays loaded from NNC1/NNC2 is used as (element - 1) and only handed to a parameter whose kind is 'global' (it subscripts the global->active map, is bounded by the cell count or is decomposed with ni*nj), never to one whose kind is 'active' (subscripts the active->global map or is bounded by the active count)", floor=7)
+    EGR = "Opm::EclIO::EGrid"
+
+    def sub2(n):
+        if n["k"] == "Idx":
+            return n["c"][0], n["c"][1]
+        if n["k"] == "OpCall" and n.get("op") == "[]" and len(n.get("a") or []) == 2:
+            return n["a"][0], n["a"][1]
+        return None
+
+    def memname(e):
+        e = strip(e)
+        return e["n"] if isinstance(e, dict) and e.get("k") == "Mem" and strip(e.get("b") or {"k": "This"})["k"] == "This" else None
+    # (a) writer
+    pushes = {}
+    for c in walk(sv["body"]):
+        m_, o_ = meth(c)
+        if m_ == "push_back" and o_ is not None and strip(o_)["k"] == "Ref" and c.get("a"):
+            pushes.setdefault(strip(o_)["n"], []).append(c)
+    nnc_written = 0
+    for c in walk(sv["body"]):
+        if c["k"] == "MCall" and c.get("m") == "write" and len(c.get("a") or []) >= 2:
+            s_ = [x["v"] for x in walk(c["a"][0]) if x["k"] == "Str"]
+            if len(s_) == 1 and s_[0] in ("NNC1", "NNC2") and strip(c["a"][1])["k"] == "Ref":
+                nnc_written += 1
+                v = strip(c["a"][1])["n"]
+                want = "cell" + s_[0][-1]
+                vals = [show(decast(p_["a"][0])) for p_ in pushes.get(v, [])]
+                chk.instance(r_ik, "save:" + s_[0], sample=dict(vector=v, values=vals))
+                ok_w = len(vals) == 1 and re.fullmatch(r"\((\w+)\.%s \+ 1\)" % want, vals[0])
+                if not ok_w:
+                    chk.violation(r_ik, "save:" + s_[0], "EclipseGrid::save fills %s with %s; the EGRID convention (and EclIO::EGrid) is the one-based global cell number NNCdata::%s + 1" % (s_[0], vals, want), sv["file"], c["l"])
+    if nnc_written != 2:
+        raise core.AnalysisBroken("EclipseGrid::save: expected NNC1 and NNC2 to be written from local vectors, found %d" % nnc_written)
+    # (b) the two maps of EclIO::EGrid
+    ctor = [f for f in fx.fns if f["q"] == EGR + "::EGrid" and f.get("body")]
+    if len(ctor) != 1:
+        raise core.AnalysisBroken("EclIO::EGrid constructor: %d definitions" % len(ctor))
+    ctor = ctor[0]
+    a2g = g2a = nact = None
+    for lp in walk(ctor["body"]):
+        if lp["k"] != "For" or not isinstance(lp.get("init"), dict):
+            continue
+        lv = [v["n"] for d in walk(lp["init"]) if d["k"] == "Decl" for v in d["vars"]]
+        if len(lv) != 1:
+            continue
+        for i_ in stmt_list(lp["body"]):
+            if i_["k"] != "If" or not re.fullmatch(r"\(\w+\[%s\] > 0\)" % lv[0], show(decast(i_["cond"]))):
+                continue
+            incs = set()
+            for t in stmt_list(i_["then"]):
+                if t["k"] == "Un" and "++" in (t.get("op") or "") and memname(t["c"][0]):
+                    incs.add(memname(t["c"][0]))
+            for t in stmt_list(i_["then"]):
+                m_, o_ = meth(t)
+                if m_ == "push_back" and o_ is not None and memname(o_) and t.get("a"):
+                    a0 = strip(t["a"][0])
+                    if a0["k"] == "Ref" and a0["n"] == lv[0]:
+                        a2g = memname(o_)
+                    elif memname(a0) in incs:
+                        g2a, nact = memname(o_), memname(a0)
+    if not (a2g and g2a and nact) or a2g == g2a:
+        raise core.AnalysisBroken("EclIO::EGrid constructor: the ACTNUM loop that builds the active->global and global->active maps was not recognised (a2g=%s g2a=%s count=%s)" % (a2g, g2a, nact))
+    chk.instance(r_ik, "maps", sample=dict(active_to_global=a2g, global_to_active=g2a, active_count=nact))
+    # (c) kind of every int parameter of the EGrid methods
+    kinds = {}
+    for f in fx.fns:
+        if not f["q"].startswith(EGR + "::") or not f.get("body"):
+            continue
+        for pi, p_ in enumerate(f.get("params") or []):
+            if p_["t"] not in ("int", "size_t", "std::size_t", "unsigned long"):
+                continue
+            ev = set()
+            for n in walk(f["body"]):
+                s2 = sub2(n)
+                if s2 and strip(s2[1])["k"] == "Ref" and strip(s2[1])["n"] == p_["n"] and memname(s2[0]) in (a2g, g2a):
+                    ev.add("active" if memname(s2[0]) == a2g else "global")
+                if n["k"] == "Bin" and n.get("op") in (">=", "<", ">", "<=") and strip(n["c"][0])["k"] == "Ref" and strip(n["c"][0])["n"] == p_["n"]:
+                    rhs = show(decast(n["c"][1]))
+                    if rhs == "this." + nact:
+                        ev.add("active")
+                    elif rhs.count("this.nijk[") == 3 and "*" in rhs:
+                        ev.add("global")
+                if n["k"] == "Bin" and n.get("op") in ("/", "%") and strip(n["c"][0])["k"] == "Ref" and strip(n["c"][0])["n"] == p_["n"] and show(decast(n["c"][1])).count("this.nijk[") == 2:
+                    ev.add("global")
+            if ev:
+                kinds[(f["q"], f["sig"], pi)] = ev
+    # propagate once through forwarding calls (getCellCorners(int) -> ijk_from_global_index)
+    for f in fx.fns:
+        if not f["q"].startswith(EGR + "::") or not f.get("body"):
+            continue
+        for c in walk(f["body"]):
+            if c["k"] == "MCall" and (c.get("fn") or "").startswith(EGR + "::"):
+                for ai, a_ in enumerate(c.get("a") or []):
+                    a0 = strip(a_)
+                    if a0["k"] == "Ref" and a0.get("d") == "Parm":
+                        tk = [k for k in kinds if k[0] == c["fn"] and k[2] == ai]
+                        pidx = [i for i, p_ in enumerate(f.get("params") or []) if p_["n"] == a0["n"]]
+                        for k in tk:
+                            if pidx and (f["q"], f["sig"], pidx[0]) not in kinds:
+                                kinds[(f["q"], f["sig"], pidx[0])] = set(kinds[k])
+    for (q, sig, pi), ev in sorted(kinds.items()):
+        key = "param:%s%s#%d" % (q.split("::")[-1], sig.split(")")[0].split("(")[-1].replace(" ", "")[:24] and "", pi) + ("/" + str(len(sig)) if sum(1 for k in kinds if k[0] == q) > 1 else "")
+        chk.instance(r_ik, key, sample=dict(function=q, sig=sig, param=pi, kind=sorted(ev)))
+        if len(ev) != 1:
+            f0 = [f for f in fx.fns if f["q"] == q and f["sig"] == sig][0]
+            chk.violation(r_ik, key, "%s uses parameter %d both as an active and as a global cell index" % (q, pi), f0["file"], f0["l"])
+    # (d) members loaded from NNC1/NNC2 and their uses
+    idx_of = {}
+    for n in walk(ctor["body"]):
+        if n["k"] == "If":
+            m = re.fullmatch(r'\(this\.array_name\[\w+\] == "(NNC1|NNC2)"\)', show(decast(n["cond"])))
+            if m:
+                for t in stmt_list(n["then"]):
+                    if t["k"] == "Bin" and t.get("asg") and memname(t["c"][0]):
+                        idx_of[memname(t["c"][0])] = m.group(1)
+    arr_of = {}
+    for f in fx.fns:
+        if not f["q"].startswith(EGR + "::") or not f.get("body"):
+            continue
+        for n in walk(f["body"]):
+            lhs = rhs = None
+            if n["k"] == "Bin" and n.get("asg") and n.get("op") == "=":
+                lhs, rhs = n["c"]
+            elif n["k"] == "OpCall" and n.get("op") == "=" and len(n.get("a") or []) == 2:
+                lhs, rhs = n["a"]
+            if lhs is not None and memname(lhs):
+                used = [memname(x) for x in walk(rhs) if x["k"] == "Mem" and memname(x) in idx_of]
+                if used and any(y["k"] in ("MCall", "Call") for y in walk(rhs)):
+                    arr_of[memname(lhs)] = idx_of[used[0]]
+    if sorted(arr_of.values()) != ["NNC1", "NNC2"]:
+        raise core.AnalysisBroken("EclIO::EGrid: the members loaded from the NNC1/NNC2 arrays were not recognised (%s via %s)" % (arr_of, idx_of))
+    uses = 0
+    for f in fx.fns:
+        if not f["q"].startswith(EGR + "::") or not f.get("body"):
+            continue
+        pmap = {}
+        for n in walk(f["body"]):
+            for ch in children(n):
+                pmap[id(ch)] = n
+        for n in walk(f["body"]):
+            s2 = sub2(n)
+            if not s2 or memname(s2[0]) not in arr_of:
+                continue
+            uses += 1
+            arr = memname(s2[0])
+            key = "use:%s:%s@%s" % (f["q"].split("::")[-1], arr, uses)
+            par = pmap.get(id(n))
+            while par is not None and par["k"] == "Cast":
+                par = pmap.get(id(par))
+            minus1 = par is not None and par["k"] == "Bin" and par.get("op") == "-" and strip(par["c"][1]).get("k") == "Int" and strip(par["c"][1]).get("v") == 1
+            call = pmap.get(id(par)) if minus1 else None
+            while call is not None and call["k"] == "Cast":
+                call = pmap.get(id(call))
+            if not minus1 or call is None or call["k"] != "MCall" or not (call.get("fn") or "").startswith(EGR + "::"):
+                chk.instance(r_ik, key, sample=dict(function=f["q"], array=arr_of[arr], use=show(par)[:80] if par else None))
+                raise core.AnalysisBroken("%s:%d: element of %s (array %s) used in a way the index-kind rule does not model: %s" % (f["file"], n["l"], arr, arr_of[arr], show(par)[:120] if par else "?"))
+            ai = [i for i, a_ in enumerate(call["a"]) if any(x is par for x in walk(a_))]
+            kk = [kinds[k] for k in kinds if k[0] == call["fn"] and ai and k[2] == ai[0]]
+            chk.instance(r_ik, key, sample=dict(function=f["q"], array=arr_of[arr], passed_to=call["fn"], kind=sorted(kk[0]) if kk else None))
+            if not kk:
+                raise core.AnalysisBroken("%s:%d: %s - 1 is passed to %s whose parameter kind could not be derived" % (f["file"], n["l"], arr, call["fn"]))
+            if kk[0] != {"global"}:
+                chk.violation(r_ik, key, "%s decodes the %s entries with %s, whose parameter is an ACTIVE cell index (it subscripts %s / is bounded by %s); the file stores GLOBAL cell numbers (EclipseGrid::save writes cell + 1), so with inactive cells every NNC end point behind the first inactive cell comes back as another cell or throws" % (f["q"], arr_of[arr], call["fn"].split("::")[-1], a2g, nact), f["file"], n["l"])
+    if uses < 2:
+        raise core.AnalysisBroken("EclIO::EGrid: fewer than 2 uses of the NNC1/NNC2 members found")
 
     chk.assumptions += ["closure of the parallel loop is followed to depth 3 within EclipseGrid.cpp, GridDims.cpp and calculateCellVol.cpp; std:: callees are trusted to be re-entrant"]
